@@ -9,6 +9,7 @@
 #![allow(long_running_const_eval)]
 
 pub mod direct;
+mod extra;
 pub mod hist;
 pub mod model;
 pub mod moduli;
@@ -170,5 +171,6 @@ fn subchecks(_ctx: &Ctx) -> Vec<SubCheck> {
     v.push(SubCheck::new("params/boxed/1..=33", 6000, params::boxed_params(33)).tape(400));
     v.push(SubCheck::new("mul_mod/boxed/1..=33", 16000, direct::mul_mod_boxed(33)).tape(400));
     for_each_modulus!(const_subs, v, 1500,);
+    v.extend(extra::subchecks(_ctx));
     v
 }
